@@ -388,6 +388,34 @@ int main(int argc, char ** argv)
               V3 a = mom(E3.get_particles()[i]), b = mom(E4.get_particles()[i]);
               if (fabsl(a.x - b.x) + fabsl(a.y - b.y) + fabsl(a.z - b.z) > 1e-12 * (norm(a) + 1e-300)) same = false;
             }
+            {
+              // a long-lived configuration record, reset() and refilled with only what this request needs (the second half-angle only
+              // for a rectangular cut): the same operation as with a new record
+              static mdl_op::config_type rc;
+              rc.reset();
+              rc.particle_label = cfg.particle_label;
+              rc.target_particle_rank = cfg.target_particle_rank;
+              rc.cone_phi_degree = cfg.cone_phi_degree;
+              rc.cone_theta_degree = cfg.cone_theta_degree;
+              rc.cone_aperture_degree = cfg.cone_aperture_degree;
+              if (c.ap2 >= 0) rc.cone_aperture2_degree = cfg.cone_aperture2_degree;
+              rc.error_on_missing_particle = cfg.error_on_missing_particle;
+              bxdecay0::event E6 = E0;
+              size_t e6 = 0;
+              std::string exc6;
+              try {
+                mdl_op op6;
+                op6.set(rc);
+                T.seek(n0);
+                op6(T, E6);
+                e6 = T.pos;
+              } catch (std::exception & x) {
+                exc6 = x.what();
+              }
+              if (!exc6.empty() || e6 != e3 || !events_bit_identical(E6, E3))
+                fail(std::string("reused-config-record|") + (rectangular ? "rect" : "circ"),
+                     "a configuration record that was reset() and refilled gives another operation than a new record with the same values" + (exc6.empty() ? std::string() : ": " + exc6), c, E3, E6, T);
+            }
             if (!same) fail(std::string("entry-points|") + (rectangular ? "rect" : "circ"), "set(config_type) in degrees and the radian setter with the converted values give different events", c, E3, E4, T);
           }
         }
